@@ -64,6 +64,12 @@ Fixpoint accepted_obs (ds : list ddesc) (os : list robs) : list (list kv) :=
   | _, _ => []
   end.
 
+Fixpoint accepted_schemas (ds : list ddesc) (os : list robs) : list bytes :=
+  match ds, os with
+  | d :: ds', o :: os' => if accepted_d d then snd o :: accepted_schemas ds' os' else accepted_schemas ds' os'
+  | _, _ => []
+  end.
+
 Fixpoint has_edet (es : list etag) (i : N) : bool :=
   match es with
   | [] => false
@@ -118,7 +124,7 @@ Definition check_case (c : case) : list N :=
       flag (robs_wf o && later_wins_ok (accepted_obs ds dobs) (fst o) &&
             list_eqb Bool.eqb errs (map errored_d ds) &&
             Bool.eqb partial (existsb partial_d ds) &&
-            (if conflict then is_empty (snd o) else true)) V_SPECFAIL
+            detect_schema_ok s0 (accepted_schemas ds dobs) (snd o) conflict) V_SPECFAIL
   end.
 
 Definition run (cs : list case) : list (N * N) := index_from 0 check_case cs.
